@@ -68,6 +68,26 @@ fn sample_of(rng: &mut Rng, ids: &[u32], n: usize) -> Vec<u32> {
     v
 }
 
+/// ln Gamma(x) for x >= 1 (Stirling series after shifting x above 10): only used to AIM the
+/// generator at a magnitude, never as an oracle
+fn ln_gamma(mut x: f64) -> f64 {
+    let mut shift = 0.0;
+    while x < 10.0 {
+        shift += x.ln();
+        x += 1.0;
+    }
+    let x2 = x * x;
+    (x - 0.5) * x.ln() - x + 0.918_938_533_204_672_7 + 1.0 / (12.0 * x) - 1.0 / (360.0 * x * x2) + 1.0 / (1260.0 * x2 * x2 * x) - shift
+}
+
+fn ln_choose(n: u32, k: u32) -> f64 {
+    ln_gamma(f64::from(n) + 1.0) - ln_gamma(f64::from(k) + 1.0) - ln_gamma(f64::from(n - k) + 1.0)
+}
+
+fn ln_pmf(big_n: u32, big_k: u32, n: u32, k: u32) -> f64 {
+    ln_choose(big_k, k) + ln_choose(big_n - big_k, n - k) - ln_choose(big_n, n)
+}
+
 fn c06(rng: &mut Rng, tier: &str, idx: usize) -> Case {
     if idx % 32 == 19 {
         // populations far beyond the shipped ontology (ln C(N, n) near the f64 range in a naive
@@ -80,6 +100,32 @@ fn c06(rng: &mut Rng, tier: &str, idx: usize) -> Case {
             let k = rng.range(1, big_k.min(n).min(8) as u64) as u32;
             c.op(format!("enrichbig {big_n} {big_k} {n} {k}"));
             c.stat("enrich_ops_huge_population", 1);
+        }
+        c.nontrivial = true;
+        return c;
+    }
+    if idx % 32 == 27 {
+        // long tails whose FIRST term sits at a chosen magnitude: around the f64 underflow
+        // thresholds (ln 2.2e-308 = -708, ln 4.9e-324 = -744.4), deep underflow, and ordinary sizes
+        let mut c = Case::new("flat-long-tail");
+        let (big_n, big_k, n) = *rng.pick(&[(4000u32, 2000u32, 2000u32), (6000, 3000, 3000), (5000, 3500, 2500), (6000, 2000, 3000)]);
+        let lo = (n + big_k).saturating_sub(big_n).max(1);
+        let hi = big_k.min(n);
+        let levels = [-3.0f64, -30.0, -300.0, -690.0, -706.0, -709.0, -720.0, -738.0, -743.0, -745.0, -750.0, -800.0];
+        for _ in 0..if tier == "quick" { 2 } else { 3 } {
+            let target = *rng.pick(&levels);
+            // left flank of the mode: the first k (ascending) whose log-pmf reaches the target
+            let mut pick = None;
+            for k in lo..=hi {
+                if ln_pmf(big_n, big_k, n, k) >= target {
+                    pick = Some(k);
+                    break;
+                }
+            }
+            let k = (pick.unwrap_or(lo) + rng.below(2) as u32).clamp(lo, hi);
+            c.op(format!("enrichbig {big_n} {big_k} {n} {k}"));
+            c.stat("enrich_ops_long_tail", 1);
+            c.stat(&format!("first_term_log_level_{}", -target as i64), 1);
         }
         c.nontrivial = true;
         return c;
@@ -317,6 +363,24 @@ fn gen_table(rng: &mut Rng, n: usize, method: &str, exact_avg: bool) -> (Vec<u32
         let mut offs: Vec<u32> = (0..(2 * npairs as u32 + 4)).collect();
         rng.shuffle(&mut offs);
         return (offs[..npairs].iter().map(|o| base + o).collect(), "near-ties");
+    }
+    if rng.chance(1, 10) && npairs >= 2 {
+        // tiny negative distances (rounding noise of `1 - similarity`), an exact zero, tiny positives
+        let mut offs: Vec<u32> = (0..(2 * npairs as u32 + 4)).collect();
+        rng.shuffle(&mut offs);
+        let mut t: Vec<u32> = offs[..npairs]
+            .iter()
+            .map(|o| if o % 2 == 0 { 0xb300_0000u32 - (o / 2) * 0x0010_0000 } else { 0x3300_0000 + (o / 2) * 0x0010_0000 })
+            .collect();
+        let i = rng.below(t.len() as u64) as usize;
+        t[i] = 0;
+        return (t, "tiny-negatives");
+    }
+    if rng.chance(1, 10) && npairs >= 2 {
+        // subnormal distances (bit patterns 1 .. 4 * npairs, mostly odd)
+        let mut offs: Vec<u32> = (1..(4 * npairs as u32 + 8)).collect();
+        rng.shuffle(&mut offs);
+        return (offs[..npairs].iter().map(|o| (1u32 << 24) + o).collect(), "subnormal");
     }
     if method == "average" && exact_avg {
         // distinct integers < 2^12, scaled by 2^12: halving stays exact for 12 nested means
